@@ -275,7 +275,7 @@ def strace_stage(sh, d):
     seen_open_in = False
     bad = []
     for line in open(log, errors="replace"):
-        if "in.jsonl" in line:
+        if "in.jsonl" in line and "openat(" in line:     # (the execve line also names the file: the loader runs after it)
             seen_open_in = True
             continue
         if not seen_open_in:
